@@ -102,3 +102,40 @@ func general2(tier string, maxCycle uint64, emit func(Case)) {
 		}
 	}
 }
+
+// general3 emits all 3-rule sets over a reduced (condition x action-list) alphabet (thorough only).
+func general3(maxCycle uint64, emit func(Case)) {
+	conds, acts := []int{0, 2, 4, 5, 12}, []int{0, 2, 3, 5, 12}
+	worlds := []func() *ref.World{gen2World(0), gen2World(1)}
+	type kind struct{ c, a int }
+	var kinds []kind
+	for _, c := range conds {
+		for _, a := range acts {
+			kinds = append(kinds, kind{c, a})
+		}
+	}
+	names := []string{"ra", "rb", "rc"}
+	for i, k1 := range kinds {
+		for j, k2 := range kinds {
+			for l, k3 := range kinds {
+				if (i+j+l)%3 != 0 {
+					continue // a fixed third of the 15 625 triples (keeps the tier inside its budget)
+				}
+				mk := func(n int, k kind) *grl.Rule {
+					r := &grl.Rule{Name: names[n], When: grl.E(gen2Conds[k.c])}
+					for _, a := range gen2Acts[k.a] {
+						a = strings.ReplaceAll(a, "%s", names[n])
+						a = strings.ReplaceAll(a, "%o", names[(n+1)%3])
+						r.Then = append(r.Then, grl.A(a))
+					}
+					return r
+				}
+				r1, r2, r3 := mk(0, k1), mk(1, k2), mk(2, k3)
+				r1.HasSal, r1.Sal = true, 1
+				emit(Case{ID: fmt.Sprintf("gen3/%d.%d.%d", i, j, l), Rules: []*grl.Rule{r1, r2, r3}, Worlds: worlds, WorldNames: []string{"v0", "v1"},
+					Opts: hx.RunOpts{MaxCycle: maxCycle},
+					Meta: map[string]string{"loc": "general3", "alias": "-", "form": fmt.Sprintf("a%d,a%d,a%d", k1.a, k2.a, k3.a), "shape": fmt.Sprintf("c%d,c%d,c%d", k1.c, k2.c, k3.c)}})
+			}
+		}
+	}
+}
